@@ -101,6 +101,44 @@ func (s *expSession) compile(names []string) (out expResult) {
 	return out
 }
 
+// compileLinked is compile followed by the experimental compiler's link step over the same files (queries.Link: what
+// is checked across files - duplicate symbols, duplicate extension numbers - is only checked there, by design). The
+// link step's diagnostics count like any others.
+func (s *expSession) compileLinked(names []string) expResult {
+	out := s.compile(names)
+	if out.Rejected {
+		return out
+	}
+	func() {
+		defer func() {
+			if p := recover(); p != nil {
+				out.Escaped = p
+				out.Rejected = true
+			}
+		}()
+		res, rep, err := incremental.Run(context.Background(), s.exec, queries.Link{Opener: s.openers, Session: s.sess, Workspace: source.NewWorkspace(names...)})
+		if err != nil {
+			out.Err, out.Rejected = err, true
+			return
+		}
+		out.Report = rep
+		if res[0].Fatal != nil {
+			out.Fatal[names[0]] = res[0].Fatal
+			out.Rejected = true
+		}
+		for i := range rep.Diagnostics {
+			d := &rep.Diagnostics[i]
+			if d.Level() == report.ICE {
+				out.ICE = d.Message() + " " + strings.Join(d.Notes(), " | ")
+			}
+			if d.Level() <= report.Error {
+				out.Rejected = true
+			}
+		}
+	}()
+	return out
+}
+
 // diagLines renders the diagnostics of a report, in order, one line each (level, tag, message, file, primary span, notes).
 func diagLines(rep *report.Report) []string {
 	if rep == nil {
